@@ -7,8 +7,11 @@ SWAP = {'==': '==', '!=': '!=', '<': '>', '>': '<', '<=': '>=', '>=': '<='}
 
 
 def K(e):
-    """canonical key of an expression (casts stripped, literals by name when they have one)"""
-    return S(strip(e))
+    """canonical key of an expression (casts stripped, literals by name when they have one; NULL is 0)"""
+    e = strip(e)
+    if e is not None and e.get('k') == 'lit' and e.get('name') == 'NULL':
+        return '0'
+    return S(e)
 
 
 def canon(cond, pol=True):
@@ -187,3 +190,8 @@ def state_functions(db, direction):
     """functions ever stored into connp->in_state / out_state (discovered from the code)"""
     sl = db.slots()
     return sorted(sl.get(('htp_connp_t', 'in_state' if direction == 'in' else 'out_state'), ()))
+
+
+def call_name_of(e):
+    e = strip(e)
+    return e.get('callee') if e is not None and e.get('k') == 'call' else None
